@@ -1735,6 +1735,13 @@ def run(rep: Report, ctx: Any) -> str:
     else:
         rep.indexed["to_string_default_emissions"] = n_ts
     rep.not_decided.append("value equality of the evaluated default with the document's value; leniency inside accepting branches")
+    from . import determinants
+
+    rep.rule("R13.9", "a default stays with what it was converted for: a copy of a property that replaces a field its convert_value reads "
+                      "(an enum's class, table of values or value type; a const's value) gives `default` anew in the same call - None, to be "
+                      "converted again, or a converted value - and never keeps the default computed for the old ones (shared with C15 R15.10)")
+    rep.floor("copies_that_replace_default_determinants", determinants.check(rep, ctx, "R13.9"), 1)
+    determinants.control(rep, "R13.9")
     return LEVEL
 
 
